@@ -89,6 +89,13 @@ CHECKS["C02"] = dict(
     technique="forward must-dataflow (guard dominance at normal returns, verdict-implication facts) + sibling agreement + parameter-write summaries over the clang CFG/call graph",
 )
 
+CHECKS["C09"] = dict(
+    text="Static decision of structural necessary conditions of C09 over src/bn: every normal return of the three prime generators is reached with bn_is_prime(a) tested true after the last write of the result and, for the basic and strong generators, with bn_bits(a) == bits established by a loop condition (GEN-POST; forward must-dataflow with branch atoms and flag-conditioned facts for the found/retry idiom - the suite asserts primality only, never the length); every modular-exponentiation sibling (basic, sliding window, Montgomery ladder; the build selects one) consults the sign of the exponent on every path returning a power, and answers 1 where it tells the zero exponent apart (MXP-SIB); integer square root and Legendre/Jacobi symbols return normally only outside their excluded arguments (ARG-GUARD). Scalar-recoding buffer contracts (digits/length promised) are decided under C08 (REC-GUARD, BUF-LEN). Values of reductions, exponentiations, inverses, gcd cofactors, symbols, interpolation, the soundness of the primality tests and that a recoding denotes its input are value properties and are not decided.",
+    design_ref="DESIGN.md section 3 (C09)",
+    note="Trusted: clang parser/CFG, extractor, the sibling sets computed by name pattern (floors 3+3), the table of argument guards read from the functions' documentation. The exact-length claim is made only for the generators whose construction establishes it; bn_gen_prime_safep restores a from (a-1)/2 and is held to primality only. Validated on every run by miniatures in sa/selftest/c09.c.",
+    technique="forward must-dataflow (post-condition facts at normal returns, flag-conditioned facts) + sibling agreement over the clang CFG",
+)
+
 NOT_APPLICABLE = {
     "C10": "every clause is an equality of ring elements for all operand values; no guard, ordering or ownership structure whose violation is visible in the code's shape, and lazy-reduction bounds need a relational numeric domain that goto-analyzer's intervals cannot carry across the *_low calls",
     "C11": "group law, [k]Q, Frobenius eigenvalue and cofactor image are algebraic identities over runtime values; the structural clauses (decoders, buffers, regularity) of the ep2..ep8 siblings are decided under C07, C08 and C20",
